@@ -1,0 +1,34 @@
+//go:build verif
+
+package net
+
+import (
+	"crypto/tls"
+	"net"
+)
+
+// Thin exported wrappers of unexported functions, for the verification harness under /verif.
+// Compiled only with -tags verif.
+
+func VerifAuthenticateConnection(p2id map[string]uint16, conn net.Conn, l Logger) (string, uint16, bool) {
+	return authenticateConnection(p2id, conn, l)
+}
+
+func VerifHandleConn(p2id map[string]uint16, conn net.Conn, inMsgs chan InMsg, stopFlag *uint32, l Logger) {
+	handleConn(p2id, conn, inMsgs, stopFlag, l)
+}
+
+func VerifReadMsg(conn net.Conn) (uint8, []byte, []byte, error) {
+	t, topic, data, err := readMsg(conn)
+	return uint8(t), topic, data, err
+}
+
+// VerifSendFrame is remoteParty.send on the given connection.
+func VerifSendFrame(conn *tls.Conn, report func(string, ...interface{}), msgType uint8, topic, data []byte) {
+	rp := &remoteParty{conn: conn, reportErr: report}
+	rp.send(&outMsg{msgType: MsgType(msgType), topic: topic, data: data})
+}
+
+func VerifExtractTLSBinding(conn net.Conn) []byte { return extractTLSBinding(conn) }
+
+const VerifMaxBuffLen = maxBuffLen
